@@ -6,7 +6,7 @@ use wow_mpq::compression::decompress_secure;
 use wow_mpq::{SecurityLimits, SessionTracker, compress, decompress};
 
 const LOSSLESS: &[(u8, &str)] = &[(0x02, "zlib"), (0x10, "bzip2"), (0x12, "lzma"), (0x20, "sparse"), (0x08, "pkware"), (0x22, "sparse+zlib"), (0x30, "sparse+bzip2")];
-const LOSSY: &[(u8, &str)] = &[(0x40, "adpcm-mono"), (0x80, "adpcm-stereo"), (0x42, "adpcm-mono+zlib"), (0x41, "adpcm-mono+huffman"), (0x81, "adpcm-stereo+huffman"), (0x82, "adpcm-stereo+zlib"), (0x50, "adpcm-mono+bzip2"), (0x90, "adpcm-stereo+bzip2"), (0x60, "adpcm-mono+sparse"), (0xA0, "adpcm-stereo+sparse")];
+const LOSSY: &[(u8, &str)] = &[(0x40, "adpcm-mono"), (0x80, "adpcm-stereo"), (0x42, "adpcm-mono+zlib"), (0x41, "adpcm-mono+huffman"), (0x81, "adpcm-stereo+huffman"), (0x82, "adpcm-stereo+zlib"), (0x50, "adpcm-mono+bzip2"), (0x90, "adpcm-stereo+bzip2"), (0x60, "adpcm-mono+sparse"), (0xA0, "adpcm-stereo+sparse"), (0x48, "adpcm-mono+pkware"), (0x88, "adpcm-stereo+pkware")];
 const COMPRESS_ONLY_ERR: &[(u8, &str)] = &[(0x01, "huffman"), (0x04, "implode")];
 const CLASSES: &[&str] = &["zero", "ff", "period2", "period3", "period255", "runs", "litruns", "random", "text", "half", "sparse", "tailz1", "tailz2", "tailz3", "tailz129"];
 
@@ -140,6 +140,100 @@ fn check_lossless(c: &mut Case, m: u8, mname: &str, class: &str, d: &[u8]) {
             }
         }
     }
+}
+
+/// Selector 0 ("no compression"): nothing can shrink, so the stored form is the input itself (the general oracle of
+/// `check_lossless` already says so: never longer, raw or method byte + exact inverse); and the way back through both entry
+/// points with selector 0 and the true length returns the input. An empty stored form is never offered to a decompressor
+/// (every selector answers "empty compressed data"), so the way back starts at one byte.
+fn check_none(c: &mut Case, class: &str, d: &[u8]) {
+    let len = d.len();
+    check_lossless(c, 0x00, "none", class, d);
+    let out = match trap(|| compress(d, 0x00)) {
+        Ok(Ok(o)) => o,
+        _ => return, // panic / refusal: judged (or tallied) by check_lossless above
+    };
+    if out != d {
+        return; // judged by check_lossless
+    }
+    c.count("none_identity_ok", 1);
+    if len == 0 {
+        c.count("none_empty_not_offered", 1);
+        return;
+    }
+    for api in ["decompress", "decompress_secure"] {
+        let r = trap(|| {
+            if api == "decompress" {
+                decompress(&out, 0x00, len)
+            } else {
+                let st = SessionTracker::new();
+                decompress_secure(&out, 0x00, len, None, &st, &SecurityLimits::default())
+            }
+        });
+        c.count("none_wayback_calls", 1);
+        match r {
+            Err(p) => c.violate(format!("decompress-panic|none|{}", p.sig()), format!("{api}(d, 0, len {len}) panicked: {}", p.msg), json!({"class": class, "len": len})),
+            Ok(Err(e)) => c.violate("own-output-rejected|none|other|ratio<=1000".to_string(), format!("{api} with selector 0 rejected the stored form of compress(d, 0): {e} (len {len}, class {class})"), json!({"class": class, "len": len, "err": e.to_string()})),
+            Ok(Ok(back)) => {
+                if back != d {
+                    c.violate(
+                        format!("roundtrip-mismatch|none|{}", if back.len() != len { "len" } else { "bytes" }),
+                        format!("{api}(compress(d, 0), 0, len) != d: len {len} class {class}, got {} bytes, first difference at {}", back.len(), first_diff(&back, d)),
+                        json!({"class": class, "len": len, "in": brief(d), "got": brief(&back)}),
+                    );
+                } else {
+                    c.count("none_wayback_ok", 1);
+                }
+            }
+        }
+    }
+}
+
+/// One unit of the threaded workload: a stored form the decompressor accepts when it is offered alone, and what it answers then.
+struct ThreadItem {
+    m: u8,
+    mname: &'static str,
+    len: usize,
+    body: Vec<u8>,
+    alone: Vec<u8>,
+}
+
+/// What one thread saw: (calls, calls answered as alone, bytes returned by decompress_secure, deviations (item, entry point, kind, text)).
+type ThreadSeen = (u64, u64, u64, Vec<(usize, &'static str, String, String)>);
+
+fn thread_body(items: &[ThreadItem], st: &SessionTracker, lim: &SecurityLimits, t: usize, rounds: usize) -> ThreadSeen {
+    let (mut calls, mut same, mut produced) = (0u64, 0u64, 0u64);
+    let mut dev: Vec<(usize, &'static str, String, String)> = Vec::new();
+    let n = items.len();
+    for round in 0..rounds {
+        for k in 0..n {
+            // every thread walks the list from another place and with another stride, so different codecs run at the same time
+            let at = (t * 5 + round * 3 + k * (1 + 2 * (t % 3))) % n;
+            let it = &items[at];
+            for api in ["decompress_secure", "decompress"] {
+                if api == "decompress" && (k + t + round) % 3 != 0 {
+                    continue;
+                }
+                let r = trap(|| if api == "decompress" { decompress(&it.body, it.m, it.len) } else { decompress_secure(&it.body, it.m, it.len, None, st, lim) });
+                calls += 1;
+                match r {
+                    Ok(Ok(b)) => {
+                        if api == "decompress_secure" {
+                            produced += b.len() as u64;
+                        }
+                        if b == it.alone {
+                            same += 1;
+                        } else {
+                            dev.push((at, api, "differs-from-single-thread".to_string(), format!("{} bytes, first difference at {}", b.len(), first_diff(&b, &it.alone))));
+                        }
+                    }
+                    Ok(Err(e)) => dev.push((at, api, "failed-but-succeeds-alone".to_string(), e.to_string())),
+                    Err(p) => dev.push((at, api, format!("panic|{}", p.sig()), p.msg.clone())),
+                }
+            }
+        }
+    }
+    (calls, same, produced, dev)
 }
 
 fn check_lossy(c: &mut Case, m: u8, mname: &str, d: &[u8], probe: &str) {
@@ -527,6 +621,137 @@ fn main() {
                         // (the same signature as on the one-call path: the PKWare decoder's panic is one defect, recorded there)
                         Err(p) => c.violate(format!("decompress-panic|{mname}|{}", p.sig()), p.msg.clone(), json!({})),
                     }
+                }
+            });
+        }
+    }
+    // selector 0 (no compression): stored as given for every class and length of the ladder (and two large units), and
+    // accepted on the way back with selector 0
+    for &class in CLASSES {
+        let i = idx;
+        idx += 1;
+        if !run.want(i) {
+            continue;
+        }
+        let mut rng = run.rng(i, 8);
+        let mut ls = lens.clone();
+        if class == "text" || class == "half" {
+            ls.extend([700_001usize, (1usize << 21) + 1]);
+        }
+        run.case(i, &format!("none|{class}|ladder"), json!({"selector": "none", "class": class, "lengths": ls.len()}), |c| {
+            for &len in &ls {
+                let d = content(&mut rng, class, len);
+                c.count("triples", 1);
+                c.count("none_inputs", 1);
+                check_none(c, class, &d);
+            }
+        });
+    }
+    // several threads, one SessionTracker: decompress_secure takes the tracker by shared reference (it is Sync), so one session
+    // may serve parallel readers. What a call answers may not depend on what other threads decode at the same time: every
+    // thread must get, for every unit, the bytes the same call returns alone (lossless and ADPCM selectors alike: decoding is
+    // deterministic), and no call may fail that succeeds alone. The workload stays below half of the session's cumulative cap.
+    {
+        let i = idx;
+        idx += 1;
+        if run.want(i) {
+            let mut rng = run.rng(i, 7);
+            let nthreads = if thorough { 12usize } else { 8 };
+            let want_rounds = if thorough { 6usize } else { 3 };
+            run.case(i, "shared-session|threads", json!({"what": "round trips of every lossless and ADPCM selector (PKWare excluded: its decoder's panic is recorded on the one-call path) from several threads on one shared SessionTracker, legacy decompress() calls in between", "threads": nthreads, "rounds_wanted": want_rounds}), |c| {
+                let lim = SecurityLimits::default();
+                let mut items: Vec<ThreadItem> = Vec::new();
+                let mut offered = 0u64;
+                let mut push = |c: &mut Case, m: u8, mname: &'static str, d: Vec<u8>, lossless: bool| {
+                    offered += 1;
+                    let Ok(Ok(out)) = trap(|| compress(&d, m)) else { return };
+                    if out == d || out.len() < 2 || out[0] != m {
+                        c.count("threads_units_stored_raw", 1);
+                        return;
+                    }
+                    let body = out[1..].to_vec();
+                    let fresh = SessionTracker::new();
+                    match trap(|| decompress_secure(&body, m, d.len(), None, &fresh, &lim)) {
+                        Ok(Ok(alone)) if !lossless || alone == d => items.push(ThreadItem { m, mname, len: d.len(), body, alone }),
+                        // refused / wrong / panicking alone: the subject of the one-call legs, not of this one
+                        _ => c.count("threads_units_not_accepted_alone", 1),
+                    }
+                };
+                let mut sizes = vec![1_000usize, 40_000, 300_000];
+                if thorough {
+                    sizes.push(1 << 20);
+                }
+                for &(m, mname) in LOSSLESS {
+                    if m & 0x08 != 0 {
+                        continue;
+                    }
+                    for (k, &len) in sizes.iter().enumerate() {
+                        let class = ["text", "half", "sparse", "runs", "litruns"][(k + m as usize) % 5];
+                        let d = content(&mut rng, class, len);
+                        push(c, m, mname, d, true);
+                    }
+                }
+                for &(m, mname) in LOSSY {
+                    if m & 0x08 != 0 {
+                        continue;
+                    }
+                    for &len in &[4096usize, 65536] {
+                        let d: Vec<u8> = (0..len / 4)
+                            .flat_map(|k| {
+                                let l = ((k as f32 * 0.05).sin() * 9000.0) as i16;
+                                let r = ((k % 200) as i16 - 100) * 80;
+                                let mut v = l.to_le_bytes().to_vec();
+                                v.extend(r.to_le_bytes());
+                                v
+                            })
+                            .collect();
+                        push(c, m, mname, d, false);
+                    }
+                }
+                let _ = offered;
+                let per_round: u64 = items.iter().map(|it| it.len as u64).sum();
+                if items.len() < 8 || per_round == 0 {
+                    c.inconclusive("fewer than 8 units were accepted alone");
+                    return;
+                }
+                // the budget, made explicit: everything the threads can have charged to the session stays at or below half the cap
+                let cap = lim.max_session_decompressed;
+                let rounds = want_rounds.min((cap / 2 / (nthreads as u64 * per_round)) as usize);
+                if rounds == 0 {
+                    c.inconclusive("the workload does not fit below the session cap");
+                    return;
+                }
+                let st = SessionTracker::new();
+                let seen: Vec<ThreadSeen> = std::thread::scope(|s| {
+                    let hs: Vec<_> = (0..nthreads).map(|t| { let (items, st, lim) = (&items, &st, &lim); s.spawn(move || thread_body(items, st, lim, t, rounds)) }).collect();
+                    hs.into_iter().map(|h| h.join().unwrap_or_else(|_| (0, 0, 0, vec![(0, "thread", "panic|outside-call".to_string(), "a worker thread died outside a trapped call".to_string())]))).collect()
+                });
+                let mut produced = 0u64;
+                let mut reported: Vec<String> = Vec::new();
+                for (t, (calls, same, bytes, dev)) in seen.iter().enumerate() {
+                    c.count("threads_calls", *calls);
+                    c.count("threads_calls_same_as_alone", *same);
+                    produced += *bytes;
+                    for (at, api, kind, text) in dev {
+                        let it = &items[*at];
+                        let sig = format!("threads-shared-session|{}|{}|{kind}", it.mname, if *api == "decompress" { "legacy-entry" } else { "secure-entry" });
+                        c.count("threads_deviations", 1);
+                        if reported.contains(&sig) {
+                            continue;
+                        }
+                        reported.push(sig.clone());
+                        c.violate(sig, format!("thread {t} of {nthreads}: {api}({}, len {}) answers otherwise than the same call alone: {kind}: {text}", it.mname, it.len), json!({"selector": it.mname, "len": it.len, "threads": nthreads, "rounds": rounds, "kind": kind}));
+                    }
+                }
+                let sels: std::collections::BTreeSet<&str> = items.iter().map(|it| it.mname).collect();
+                c.count("threads_n", nthreads as u64);
+                c.count("threads_rounds", rounds as u64);
+                c.count("threads_units", items.len() as u64);
+                c.count("threads_selectors", sels.len() as u64);
+                c.count("threads_session_bytes", produced);
+                let (charged, _, _) = st.get_stats();
+                if charged > produced {
+                    c.violate("threads-shared-session|session-charged-more-than-returned".to_string(), format!("{nthreads} threads got {produced} bytes back from decompress_secure in total, the shared session reports {charged}"), json!({"produced": produced, "charged": charged}));
                 }
             });
         }
